@@ -112,6 +112,10 @@ fn gen_history(rng: &mut Prng, prop: &str, thorough: bool) -> History {
     let space = *rng.pick(&[6u64, 12, 24, 48, 96, 300]);
     let big_ok = rng.chance(1, 4);
     let mut ops = vec![];
+    if rng.chance(1, 3) {
+        // small level limits: size-triggered compactions of levels >= 1 (compaction pointers)
+        ops.push(Op::LevelLimit(*rng.pick(&[512u64, 2048, 8192])));
+    }
     let mut next_snap = 0u32;
     let mut live: Vec<u32> = vec![];
     let mut live_iters: Vec<u32> = vec![];
